@@ -21,6 +21,9 @@ CHECKS = {
  'C07': dict(level='proof', design='3.C07',
    technique='static dataflow normalisation of optimised LLVM IR; shift/rotate counts specialised exhaustively (0..bits-1)',
    text="Bitwise ops are bitwise terms; every (type, count) pair of <<, >>, bitwise_lshift/rshift, rotl, rotr is its own wrapper with a literal count, so the synthesised 8-bit and 64-bit-arithmetic shifts are decided for EVERY count (shifts by a constant are pure re-slicing of the lane's bits in the normal form); per-lane counts are decided against shl/lshr/ashr terms."),
+ 'C09': dict(level='proof', design='3.C09',
+   technique='static dataflow normalisation of optimised LLVM IR: AC-flattening of the reduction tree into a multiset of lane atoms',
+   text="reduce_add / reduce_max / reduce_min / generic reduce(f,x) with an opaque lane-wise f / haddp, per (element type, configuration): the term of the scalar result (or of each haddp lane) is flattened over its associative-commutative operator; every lane must occur exactly once for add/reduce (integers: coefficient 1 in the linear normal form = the modular sum; floats: an fadd tree = 'summed in some association order'), at least once and nothing else for min/max; haddp lane i must be the fadd tree over exactly the lanes of row i. Decided for all lane counts 2..64 on 21 configurations."),
 }
 NA = {}
 def main():
